@@ -14,6 +14,7 @@ inductive BOp where
   | status (code : Nat)
   | write (b : Bytes)
   | flush
+  | close                      -- `request.Body.Close()`
   deriving Repr
 
 inductive Dispatch where
@@ -95,24 +96,28 @@ def flightReadAll (w : World) (pl : HandlePlan) (buf : Nat) : Nat → Flight →
 
 /-- A handler working directly on the client's request and writer (pass-through / unknown). -/
 def runRaw (script : List BOp) (src : Source) (sink : Sink) : Source × Sink × Bytes × Option Err × List Bool :=
-  script.foldl (fun (acc : Source × Sink × Bytes × Option Err × List Bool) op =>
-    let (src, sink, rd, re, ws) := acc
+  let r := script.foldl (fun (acc : Bool × Source × Sink × Bytes × Option Err × List Bool) op =>
+    let (closed, src, sink, rd, re, ws) := acc
     match op with
     | .readn k buf =>
+      if closed then (closed, src, sink, rd, if k == 0 then re else some .other, ws) else
       let (src, rd, re) := rawReadN k buf (k + 2) src 0 rd re
-      (src, sink, rd, re, ws)
+      (closed, src, sink, rd, re, ws)
     | .readall buf =>
+      if closed then (closed, src, sink, rd, some .other, ws) else
       let (src, rd, re) := rawReadAll buf src.fuel src rd
-      (src, sink, rd, re, ws)
-    | .sethdr k v => (src, { sink with hdr := sink.hdr.set k v }, rd, re, ws)
-    | .addhdr k v => (src, { sink with hdr := Hdr.add sink.hdr k v }, rd, re, ws)
-    | .status c => (src, sink.writeHeader c, rd, re, ws)
+      (closed, src, sink, rd, re, ws)
+    | .sethdr k v => (closed, src, { sink with hdr := sink.hdr.set k v }, rd, re, ws)
+    | .addhdr k v => (closed, src, { sink with hdr := Hdr.add sink.hdr k v }, rd, re, ws)
+    | .status c => (closed, src, sink.writeHeader c, rd, re, ws)
     | .write b =>
       let sink := sink.write b
       let code := sink.status.getD 200
       let bodyAllowed := !((100 ≤ code && code ≤ 199) || code == 204 || code == 304)
-      (src, sink, rd, re, ws ++ [!bodyAllowed])
-    | .flush => (src, { sink with flushes := sink.flushes + 1 }, rd, re, ws)) (src, sink, [], none, [])
+      (closed, src, sink, rd, re, ws ++ [!bodyAllowed])
+    | .flush => (closed, src, { sink with flushes := sink.flushes + 1 }, rd, re, ws)
+    | .close => (true, src, sink, rd, re, ws)) (false, src, sink, [], none, [])
+  r.2
 
 /-- Interpretation of the scripted handler against the transcoding adapters. -/
 def runScript (w : World) (tb : Tables) (pl : HandlePlan) (script : List BOp) (f : Flight) : Flight × BackendObs :=
@@ -134,7 +139,8 @@ def runScript (w : World) (tb : Tables) (pl : HandlePlan) (script : List BOp) (f
     | .write data =>
       let (st, failed, p) := rwWrite w tb f.st data
       ({ f with st := st, panic := f.panic || p }, { b with writes := b.writes ++ [failed] })
-    | .flush => (f, b)) (f, {})
+    | .flush => (f, b)
+    | .close => (f.close, b)) (f, {})
 
 /-- `operation.reportError` before a `responseWriter` exists (the operation is valid). -/
 def opReportError (o : Op) (k : Sink) (err : Err) : Sink × Bool :=
